@@ -5,6 +5,8 @@ import json
 CLAIMED = {
  'C02': ('proof', 'Theorems: results modulo 2^size, add carry (word/byte), word add overflow formula = signed overflow, borrow (incl. sign-extension preserving unsigned order), compare flags at each size, truncating division/remainder, MIN/-1 wraps, zero divide faults before any write, shift results for every count, opcode -> arm; model tied to the code on every data-processing opcode x operand forms x boundary/random values x flags.',
          'Coq proof of the arithmetic of each dispatch arm + differential correspondence over all ALU opcodes', 'DESIGN.md 7 C02'),
+ 'C04': ('proof', 'Theorems: the opcode tables translated from the source on every run equal the architected opcode map (all 256 first bytes, all 256 second bytes after 0x30: defined-ness, operand size, operand kinds); for EVERY byte string the decoder returns an instruction of 1..26 bytes or an error, never overruns its 32-byte buffer, never exhausts its recursion bound (also for any non-crashing byte source); reserved descriptors and nested prefixes are rejected. Partial: no encoder round-trip theorem yet; operand contents are tied to the architected encoding by exhaustive-by-signature differential runs and an independent length/legality monitor.',
+         'Coq proof (table equality by computation lifted to all bytes; totality and length bound by structural induction) + differential correspondence + architected-length monitor', 'DESIGN.md 7 C04'),
  'C05': ('proof', 'The branch/return conditions are translated from the source on every run and proved equal to the architected predicate for all 42 opcodes x 16 flag states; the model executes exactly that predicate with the prescribed PC/SP effect; exhaustive correspondence over opcode x flags x displacements plus an independent architected-predicate monitor.',
          'Coq proof over predicates regenerated from the source + exhaustive differential correspondence', 'DESIGN.md 7 C05'),
  'C08': ('proof', 'Payload-polymorphic theorems by induction over all histories: delivered-while-ready ++ pipeline is an in-order subsequence of queued (no invention, duplication, reordering), loss only by flagged overrun / receiver reset / unready read, overrun flag sticky, FIFO refinement, invariant reachable; correspondence on receive-path histories incl. exhaustive short ones and fill x command x refill scenarios; conservation monitor.',
